@@ -4,7 +4,7 @@ from autobean_refactor import token_store as ts
 
 CASES = {'quick': 4000, 'thorough': 100000}
 GATES = {
-    'quick': {'live_tokens_offered': 3000, 'empty_range_splices': 2000, 'evaluations': 50000, 'ops_multi_block_removed': 1500, 'ops_removed_ge_lf': 3000, 'histories': 3000},
+    'quick': {'live_tokens_offered': 3000, 'caller_list_mutations': 3000, 'empty_range_splices': 2000, 'evaluations': 50000, 'ops_multi_block_removed': 1500, 'ops_removed_ge_lf': 3000, 'histories': 3000},
     'thorough': {'evaluations': 5000000, 'ops_multi_block_removed': 100000, 'histories': 90000},
 }
 RULE = ('case = one random history (40-200 ops; thorough up to 300) on a raw TokenStore with load factor 2..12 (thorough: ..50) '
@@ -42,6 +42,19 @@ def run_case(col, r, idx):
     nsteps = r.choice([40, 80, 200]) if col.tier == 'quick' else r.choice([40, 100, 200, 300])
     h = storehist.History(r, lf, nsteps)
     col.count('histories')
+    # the list handed to from_tokens stays the caller's: what the caller does to it afterwards is no business of the store
+    src = [storehist.mk(r) for _ in range(r.choice([1, 2, lf - 1, lf, lf + 1, 3 * lf]))]
+    keep = list(src)
+    st = ts.TokenStore.from_tokens(src)
+    how = r.choice(['clear', 'append', 'reverse', 'pop'])
+    getattr(src, how)(*([storehist.mk(r)] if how == 'append' else []))
+    col.ev()
+    col.count('caller_list_mutations')
+    v = storemodel.compare_sequence(st, keep)
+    if v:
+        col.violation(f'from_tokens-shares-callers-list:{v[0]}', f'after the caller did .{how}() on the list it had passed to from_tokens ({len(keep)} tokens, '
+                      f'lf={lf}): {v[1]}', {'lf': lf, 'n': len(keep)})
+        return
     # a store cannot be built from a batch that holds one token twice
     dup = storehist.mk(r)
     batch = [dup] + [storehist.mk(r) for _ in range(r.randint(0, 2 * lf))] + [dup]
